@@ -184,7 +184,8 @@ def imp_universe(root):
     # RELATIVE import and must be followed like any other
     return R.Universe({"c": root + "/R/conftest.py", "cs": root + "/R/sub/conftest.py", "u": root + "/R/sub/test_u.py",
                        "ti": root + "/R/test_imp.py", "m1": root + "/R/mod1.py", "m2": root + "/R/mod2.py",
-                       "pk": root + "/R/pkg/__init__.py", "m3": root + "/R/pkg/http.py"})
+                       "pk": root + "/R/pkg/__init__.py", "m3": root + "/R/pkg/http.py",
+                       "ri": root + "/R/__init__.py", "si": root + "/R/sub/__init__.py"})
 
 
 def defid(d):
@@ -215,7 +216,7 @@ def check_c14(tier):
         using = c["using"]
         ops = [{"op": "scan", "root": root + "/R"}]
         it_idx = len(c["ws"][using]["items"])
-        for j in range(1, 6):
+        for j in range(1, 7):
             ln, cs, ce = files[using].use_pos[(it_idx, "p", j)]
             ops.append({"op": "goto", "path": uni.paths[using], "line": ln - 1, "col": cs})
         ops.append({"op": "available", "path": uni.paths[using]})
@@ -223,12 +224,12 @@ def check_c14(tier):
         ctx[n] = (c, uni, files)
         hcases.append({"id": n, "ops": ops})
     results = list(C.run_harness(hcases, threads=8))
-    order = ["fa", "fb", "fc", "fp", "fz"]
+    order = ["fa", "fb", "fc", "fp", "fz", "fr"]
     for res in results:
         c, uni, files = ctx[res["id"]]
         rows = {r["name"]: r for r in c["rows"]}
         r = res["res"]
-        snap = r[7]
+        snap = r[8]
         texts = {uni.paths[s][len(os.path.dirname(uni.paths["c"])) - 1:]: f.text for s, f in files.items()}
 
         def dec(d):
@@ -246,7 +247,7 @@ def check_c14(tier):
         if isinstance(snap, dict) and not want_disc <= analysed:
             V.violation({"shape": c["shape"], "missing": sorted(want_disc - analysed), "files": texts},
                         "a module reachable through imports was not discovered by the workspace scan")
-        avail = {d["name"]: dec(d) for d in r[6]} if isinstance(r[6], list) else {}
+        avail = {d["name"]: dec(d) for d in r[7]} if isinstance(r[7], list) else {}
         for j, nm in enumerate(order):
             row = rows[nm]
             V.count()
@@ -278,7 +279,7 @@ def check_c14(tier):
         os.makedirs(sp, exist_ok=True)
         os.makedirs(os.path.join(ws, "tests"), exist_ok=True)
         with open(os.path.join(ws, "tests", "test_x.py"), "w") as fh:
-            fh.write("def test_x(plug_fx, sub_fx, builtin_fx):\n    pass\n")
+            fh.write("def test_x(plug_fx, sub_fx, builtin_fx, imp_fx):\n    pass\n")
         plug_src = "import pytest\n\n\n@pytest.fixture\ndef plug_fx():\n    return 1\n"
         sub_src = "import pytest\n\n\n@pytest.fixture\ndef sub_fx():\n    return 1\n"
         if c["builtin"]:
@@ -308,8 +309,13 @@ def check_c14(tier):
             with open(os.path.join(sp, stem + ".pth"), "w") as fh:
                 fh.write("# comment\nimport nothing\n%s\n" % src_root)
         if c["target"] == "module":
+            onward = {"none": "", "star_rel": "from .plugfx import *\n", "star_abs": "from plugfx import *\n",
+                      "plugins": 'pytest_plugins = ["plugfx"]\n'}[c.get("onward", "none")]
             with open(os.path.join(src_root, "plugmod.py"), "w") as fh:
-                fh.write(plug_src)
+                fh.write(plug_src + ("\n\n" + onward if onward else ""))
+            if onward:
+                with open(os.path.join(src_root, "plugfx.py"), "w") as fh:
+                    fh.write("import pytest\n\n\n@pytest.fixture\ndef imp_fx():\n    return 1\n")
         elif c["target"] == "package":
             os.makedirs(os.path.join(src_root, "plugpkg"), exist_ok=True)
             with open(os.path.join(src_root, "plugpkg", "__init__.py"), "w") as fh:
@@ -319,7 +325,8 @@ def check_c14(tier):
         ops = [{"op": "scan", "root": ws}, {"op": "snapshot", "full": True}, {"op": "unused"},
                {"op": "goto", "path": os.path.join(ws, "tests", "test_x.py"), "line": 0, "col": 11},
                {"op": "goto", "path": os.path.join(ws, "tests", "test_x.py"), "line": 0, "col": 20},
-               {"op": "goto", "path": os.path.join(ws, "tests", "test_x.py"), "line": 0, "col": 28}]
+               {"op": "goto", "path": os.path.join(ws, "tests", "test_x.py"), "line": 0, "col": 28},
+               {"op": "goto", "path": os.path.join(ws, "tests", "test_x.py"), "line": 0, "col": 40}]
         vctx[n] = c
         hcases.append({"id": n, "ops": ops})
     for res in C.run_harness(hcases, threads=8):
@@ -339,7 +346,7 @@ def check_c14(tier):
         listed = {x["name"] for x in unused} if isinstance(unused, list) else set()
         if any(want.get(nm) == "third" for nm in listed):
             V.violation(dict(ex, unused=sorted(listed)), "a third-party fixture is listed by `fixtures unused`")
-        for j, nm in enumerate(["plug_fx", "sub_fx", "builtin_fx"]):
+        for j, nm in enumerate(["plug_fx", "sub_fx", "builtin_fx", "imp_fx"]):
             g = res["res"][3 + j]
             if (g is not None and "name" in g) != (nm in want):
                 V.violation(dict(ex, name=nm, goto=g), "a usage of an installed plugin fixture does not resolve exactly when the plugin provides it")
